@@ -66,6 +66,8 @@ class ConclusionSelector(LogicalBinaryOperator, ABC):
         # the conclusions that were produced are remembered per evaluation, not for the lifetime of the query
         for seen_set in self.concluded_before.values():
             seen_set.clear()
+        # an iterator that was abandoned at a result leaves the conclusions selected for that result behind
+        self._conclusion_.clear()
 
     @property
     def _plot_color_(self) -> ColorLegend:
